@@ -292,18 +292,29 @@ fn c12_jobs(tier: Tier) -> Vec<HybJob> {
                         }
                     }
                     for (policy, bound) in plan.iter() {
-                        jobs.push(HybJob {
-                            cfg: cfg.clone(),
-                            prog: prog.clone(),
-                            policy: *policy,
-                            opts: RunOpts {
-                                final_reads: true,
-                                final_restart: false,
-                                universe: vec![1, 3],
-                                ..Default::default()
-                            },
-                            bound: *bound,
-                        });
+                        // From the empty cache, and from a state in which k1 lives on disk only.
+                        for on_disk_start in [false, true] {
+                            if on_disk_start && (admission == Admission::Reject || !prog.iter().any(|o| matches!(o, HOp::Get { k: 1 } | HOp::Gof { k: 1, .. }))) {
+                                continue;
+                            }
+                            jobs.push(HybJob {
+                                cfg: cfg.clone(),
+                                prog: prog.clone(),
+                                policy: *policy,
+                                opts: RunOpts {
+                                    final_reads: true,
+                                    final_restart: false,
+                                    universe: vec![1, 3],
+                                    prologue: if on_disk_start {
+                                        vec![HOp::Ins { k: 1, sz: 100, loc: Loc::Default }, HOp::Fill { n: 2 }, HOp::Wait]
+                                    } else {
+                                        vec![]
+                                    },
+                                    ..Default::default()
+                                },
+                                bound: *bound,
+                            });
+                        }
                     }
                 }
             }
